@@ -210,7 +210,7 @@ def run(ck, thorough):
     tp = ck.path("gen-trace.ndjson")
     inputs = ck.path("gen-inputs.ndjson")
     s = ck.drive("cssp", "replay", "-cases", ",".join(files), "-out", tp, "-inputs", inputs, "-seed", ck.seed,
-                 "-variants", 1 if thorough else 2, "-inputvariants", 1, "-keep", 200 if thorough else 50, timeout=3000)
+                 "-variants", 1 if thorough else 2, "-inputvariants", 1, "-inputevery", 4 if thorough else 1, "-keep", 200 if thorough else 50, timeout=3000)
     for p in files:
         os.remove(p)      # hundreds of MB
     if s["cases"] == 0 or s["executions"] == 0:
